@@ -2,6 +2,7 @@
 import ast
 
 from .. import rx, strlang, cfg
+from . import common
 from ..core import AnalysisError, norm, walk_no_nested
 from ..strlang import Slot, ListOf, Obj, Opaque
 from .deb822model import Model, KEY_RE
@@ -91,7 +92,9 @@ def r1_optional_fields(rep, src):
             if not q.startswith(cname + '.') or '.' in q[len(cname) + 1:]:
                 continue
             loops = table_loops(fn)
-            if not loops:
+            comps_ = [x for x in walk_no_nested(fn.node) if isinstance(x, (ast.ListComp, ast.SetComp, ast.DictComp, ast.GeneratorExp))
+                      and any('_multivalued_fields' in norm(g_.iter) for g_ in x.generators)]
+            if not loops and not comps_:
                 continue
             rep.saw_func(fn)
             g = cfg.CFG(fn.node)
@@ -157,6 +160,57 @@ def r1_optional_fields(rep, src):
                             rep.fail('C12.R1', fn.site, what, '%s reads self[%s] and is called for every entry of _multivalued_fields without a guard: '
                                      'an absent optional structured field raises KeyError (dump fails)' % (callee.qual, par),
                                      where='%s:%d' % (fn.module.relpath, call.lineno))
+            # comprehensions over the table: a subscript / a call reading self[key] must be preceded by `key in self`
+            # among the conditions of its generator (earlier `if` clause or earlier conjunct of the same `and`)
+            for comp in [x for x in walk_no_nested(fn.node) if isinstance(x, (ast.ListComp, ast.SetComp, ast.DictComp, ast.GeneratorExp))]:
+                for gi, gen in enumerate(comp.generators):
+                    if '_multivalued_fields' not in norm(gen.iter):
+                        continue
+                    kv = gen.target.id if isinstance(gen.target, ast.Name) else (gen.target.elts[0].id if isinstance(gen.target, ast.Tuple) else None)
+                    if kv is None:
+                        continue
+                    n_loops += 1
+                    rep.saw_func(fn)
+                    rep.ok('C12.R1', fn.site, 'loop over the field table visits every entry', 'comprehension', nontrivial=False)
+
+                    def conjuncts(e):
+                        if isinstance(e, ast.BoolOp) and isinstance(e.op, ast.And):
+                            out = []
+                            for v in e.values:
+                                out += conjuncts(v)
+                            return out
+                        return [e]
+                    conds = []
+                    for c in gen.ifs:
+                        conds += conjuncts(c)
+                    member = ('%s in self' % kv, '%s in self.keys()' % kv)
+
+                    def reads(node):
+                        """does evaluating node read self[kv] (directly or through self.method(kv))"""
+                        for x in ast.walk(node):
+                            if isinstance(x, ast.Subscript) and norm(x.value) == 'self' and norm(x.slice) == kv:
+                                return 'self[%s]' % kv
+                            if isinstance(x, ast.Call) and isinstance(x.func, ast.Attribute) and norm(x.func.value) == 'self' and any(norm(a) == kv for a in x.args):
+                                callee = m.method(cname, x.func.attr)
+                                if callee is not None:
+                                    idx = [norm(a) for a in x.args].index(kv)
+                                    ps = callee.params()
+                                    if idx + 1 < len(ps) and any(isinstance(y, ast.Subscript) and norm(y.value) == 'self' and norm(y.slice) == ps[idx + 1]
+                                                                 for y in ast.walk(callee.node)):
+                                        return 'self.%s(%s) → self[%s]' % (x.func.attr, kv, ps[idx + 1])
+                        return None
+                    guarded_from = next((i for i, c in enumerate(conds) if norm(c) in member), None)
+                    parts = [(i, c) for i, c in enumerate(conds)] + [(len(conds), e) for e in ([comp.key, comp.value] if isinstance(comp, ast.DictComp) else [comp.elt])]
+                    for i, node in parts:
+                        what = reads(node)
+                        if what is None:
+                            continue
+                        if guarded_from is not None and guarded_from < i:
+                            rep.ok('C12.R1', fn.site, what + ' in the table comprehension', 'membership test `%s` precedes it' % norm(conds[guarded_from]))
+                        else:
+                            rep.fail('C12.R1', fn.site, what + ' in the table comprehension', '%s is evaluated for every entry of _multivalued_fields without a preceding '
+                                     '`%s in self`: an absent optional structured field raises KeyError (dump fails)' % (what, kv),
+                                     where='%s:%d' % (fn.module.relpath, comp.lineno))
     if n_loops < 3:
         raise AnalysisError('only %d loops over _multivalued_fields found' % n_loops)
 
@@ -172,13 +226,19 @@ def extract_writer(src, rep):
             return True
         if t.startswith('hasattr(self[') and "'keys'" in t:
             return it.decide(('bool', 'single-line'), 'the field holds a single record')
+        if isinstance(test, ast.Call) and norm(test.func) == 'hasattr' and len(test.args) == 2 and norm(test.args[1]) == "'keys'":
+            v = it.ev(test.args[0], env)
+            if isinstance(v, Obj) and v.path == 'record':
+                return True
+            if isinstance(v, ListOf):
+                return False
         return NotImplemented
 
     def sub_hook(it, node, env):
         t = norm(node)
         if t == 'self[%s]' % keyp:
             rec = Obj('record', ('rec', {}))
-            if it.dec.get(('bool', 'single-line')):
+            if it.decide(('bool', 'single-line'), 'the field holds a single record'):
                 return rec
             return ListOf(rec, 'records')
         if norm(node.value) == 'self._multivalued_fields':
@@ -503,21 +563,18 @@ def r4_size_column(rep, src):
         if f is None:
             raise AnalysisError('%s._get_size_field_length not found' % cname)
         rep.saw_func(f)
-        env = {}
+        from .. import paths as P0
+        folder = P0.Folder(P0.module_consts(m, cname))
         results = []
-
-        def walk(stmts, cond):
-            for st in stmts:
-                if isinstance(st, ast.Assign) and isinstance(st.targets[0], ast.Name):
-                    env[st.targets[0].id] = kind_of(st.value, env)
-                elif isinstance(st, ast.Return) and st.value is not None:
-                    results.append((cond, kind_of(st.value, env), st))
-                elif isinstance(st, ast.If):
-                    walk(st.body, norm(st.test))
-                    walk(st.orelse, 'not (%s)' % norm(st.test))
-        walk(f.node.body, None)
+        for p_ in P0.function_paths(f.node, folder):
+            if p_.outcome[0] != 'return' or p_.outcome[1] is None:
+                continue
+            cv = folder.value(p_.outcome[1])
+            k = ('CONST', cv[1]) if cv is not None and isinstance(cv[1], int) else kind_of(p_.outcome[1], {})
+            cond = ' and '.join(('' if pol else 'not ') + '(' + norm(t) + ')' for t, pol in p_.conds)
+            results.append((cond, k, p_, p_.conds))
         if modes is None:
-            ks = [k for _, k, _ in results]
+            ks = [k for _, k, _, _c in results]
             if ks == ['MAXLEN']:
                 rep.ok('C12.R4', f.site, 'width = longest size', 'max(len(str(item[size])))')
             else:
@@ -525,9 +582,9 @@ def r4_size_column(rep, src):
                          'sizes (a lexicographic or numeric maximum of the sizes gives a too narrow column)' % ks, where=f.where)
         else:
             got = {}
-            for cond, k, st in results:
+            for cond, k, st, conds in results:
                 for md in modes:
-                    if cond and ("'%s'" % md) in cond.replace('"', "'") and not cond.startswith('not'):
+                    if any(pol and norm(t).replace('"', "'") in ("self.size_field_behavior == '%s'" % md, "'%s' == self.size_field_behavior" % md) for t, pol in conds):
                         got[md] = k
             if got.get('apt-ftparchive') == ('CONST', 16):
                 rep.ok('C12.R4', f.site, 'apt-ftparchive width', '16')
@@ -539,11 +596,17 @@ def r4_size_column(rep, src):
                 rep.fail('C12.R4', f.site, 'dak width', 'width for dak is computed as %r instead of the longest size present' % (got.get('dak'),), where=f.where)
         # _fixed_field_lengths stores it under "size" for the present keys
         p = m.method(cname, '_fixed_field_lengths')
-        st = [s for s in ast.walk(p.node) if isinstance(s, ast.Assign) and isinstance(s.targets[0], ast.Subscript) and isinstance(s.value, ast.Dict)]
-        if st and [norm(k) for k in st[0].value.keys] in (["'size'"], ['"size"']) and '_get_size_field_length' in norm(p.node):
-            rep.ok('C12.R4', p.site, 'width applies to the size column', norm(st[0])[:60], nontrivial=False)
+        dicts = [d for d in ast.walk(p.node) if isinstance(d, ast.Dict) and len(d.keys) == 1 and isinstance(d.keys[0], ast.Constant) and d.keys[0].value == 'size']
+        named = {norm(a_.targets[0]) for a_ in ast.walk(p.node) if isinstance(a_, ast.Assign) and len(a_.targets) == 1 and '_get_size_field_length(' in norm(a_.value)}
+        if dicts and all('_get_size_field_length(' in norm(d.values[0]) or norm(d.values[0]) in named for d in dicts):
+            rep.ok('C12.R4', p.site, 'width applies to the size column', norm(dicts[0])[:60], nontrivial=False)
         else:
             rep.fail('C12.R4', p.site, 'width applies to the size column', 'the computed width is not registered for the "size" sub-field', where=p.where)
+    # the widths are recomputed from the current content on every dump (no memo that later edits would leave stale)
+    common.check_no_hidden_state(rep, src, 'C12.R4', [MOD + ':PdiffIndex._fixed_field_lengths', MOD + ':PdiffIndex._get_size_field_length',
+                                                     MOD + ':Release._fixed_field_lengths', MOD + ':Release._get_size_field_length',
+                                                     MOD + ':_multivalued.get_as_string'],
+                                 'the column width / text of a structured field is then taken from an earlier dump although records were added or changed since')
     # right alignment in the writer
     fw = src.func(MOD + ':_multivalued.get_as_string')
     pads = [s for s in ast.walk(fw.node) if isinstance(s, ast.Assign) and isinstance(s.value, ast.BinOp) and isinstance(s.value.op, ast.Add)
@@ -555,8 +618,15 @@ def r4_size_column(rep, src):
         if isinstance(sp, ast.Constant) and sp.value == ' ' and isinstance(cnt, ast.BinOp) and isinstance(cnt.op, ast.Sub) \
                 and norm(cnt.right) == 'len(%s)' % norm(s.value.right):
             okp = True
+    for c in ast.walk(fw.node):
+        # raw.rjust(width)
+        if isinstance(c, ast.Call) and isinstance(c.func, ast.Attribute) and c.func.attr == 'rjust' and len(c.args) == 1:
+            okp = True
+        if isinstance(c, ast.Call) and isinstance(c.func, ast.Attribute) and c.func.attr in ('ljust', 'center'):
+            okp = False
+            break
     if okp:
-        rep.ok('C12.R4', fw.site, 'right alignment', '(width − len(raw)) * " " + raw')
+        rep.ok('C12.R4', fw.site, 'right alignment', 'padded on the left to the registered width')
     else:
         rep.fail('C12.R4', fw.site, 'right alignment', 'the size column is not padded on the left to the registered width', where=fw.where)
 
